@@ -8,7 +8,8 @@ cd "$(dirname "$0")/.."
 out=$PWD/seeded/$name; mkdir -p $out
 cp $wt/_seed/patch.diff $wt/_seed/demo.py $out/ 2>/dev/null
 cp $wt/_seed/notes.md $out/agent_notes.md 2>/dev/null
-echo "== baseline in worktree (change applied)"; ./tools/run_baseline.py $wt | head -1 | tee $out/baseline.txt
+if [ -n "${SKIP_BASELINE:-}" ]; then echo "== baseline: deferred (tools/run_baseline.py $wt)"; else
+echo "== baseline in worktree (change applied)"; ./tools/run_baseline.py $wt | head -1 | tee $out/baseline.txt; fi
 echo "== demo with change"; (cd $wt && PYTHONPATH=$wt /venv/bin/python _seed/demo.py > /tmp/demo_with.txt 2>&1; echo "exit $?") | tee $out/demo_with.txt
 git -C /repo apply --check $out/patch.diff || { echo "PATCH DOES NOT APPLY to /repo"; exit 3; }
 echo "== demo without change (on /repo)"; (cd /repo && PYTHONPATH=/repo /venv/bin/python $out/demo.py > /tmp/demo_without.txt 2>&1; echo "exit $?") | tee $out/demo_without.txt
